@@ -681,6 +681,7 @@ class SharesManager(BaseManager):
 
         # First round using the term map
         include_terms = []
+        wildcard_matches: list[set[SharedItem]] = []
         for term in search_query.include_terms:
             subterms = re.split(_QUERY_CLEAN_PATTERN, term)
             for subterm in subterms:
@@ -707,16 +708,20 @@ class SharesManager(BaseManager):
                     if not matching_terms:  # Optimization
                         return [], []
 
-                    include_terms.extend(matching_terms)
+                    # An item matches if any of its terms ends with the subterm
+                    wildcard_matches.append(
+                        set().union(*(self._term_map[map_term] for map_term in matching_terms))
+                    )
                 else:
                     if subterm not in self._term_map:  # Optimization
                         return [], []
 
                     include_terms.append(subterm)
 
-        found_items = set(self._term_map[include_terms[0]])
-        for include_term in include_terms:
-            found_items &= set(self._term_map[include_term])
+        found_items = set.intersection(
+            *(set(self._term_map[include_term]) for include_term in include_terms),
+            *wildcard_matches
+        )
 
         # Regular expressions on the remaining items
 
